@@ -205,6 +205,11 @@ func (x *Exec) ghostRet(st *State, name string, res *Val) {
 			if f.L != nil && f.L.Idx == nil && f.L.Path == "" {
 				st.ghost[fmt.Sprintf("lastret:%s:%d", name, i)] = f.L.Base
 			}
+		case kSlice:
+			// a slice result is recorded by its length
+			if f.Len != nil {
+				st.ghost[fmt.Sprintf("lastret:%s:%d", name, i)] = f.Len
+			}
 		}
 	}
 	if res.K == kTuple {
@@ -268,7 +273,9 @@ func (x *Exec) callFunc(st *State, fr *Frame, fn *ssa.Function, args []*Val, bin
 	}
 	x.note("opaque call (no contract, no model): " + name)
 	x.ghostCall(st, externName(fn), args)
-	cont(st, x.havocCall(st, sanitize(fn.Name()), args, fn.Signature.Results()))
+	ores := x.havocCall(st, sanitize(fn.Name()), args, fn.Signature.Results())
+	x.ghostRet(st, externName(fn), ores)
+	cont(st, ores)
 }
 
 func (x *Exec) invoke(st *State, fr *Frame, call *ssa.CallCommon, recv *Val, args []*Val, pos token.Pos, cont retFn) {
